@@ -15,7 +15,7 @@ LEVEL = 'exploration'
 VARIANTS = [
     "directed single-pre-emption sweep of small scenarios",
     "second Connection in the process",
-    "bursts of 301..650 queued packets",
+    "bursts of 301..650 (and 4000..5000) queued packets",
     "reused object: disconnect, immediate reconnect, queued writes, disconnect in the hand-over window",
     "slow early outgoing listener (lock held up to 40 s)",
     "send() stalls",
@@ -126,6 +126,12 @@ def scenario_for(seed, index, tier, _random_only=False):
         n = rng.choice([301, 320, 650])
         burst = [['q', tag + i, rng.choice([0, 0, 3])] for i in range(n)]
         tag += n
+        if make_rng('huge', ID, seed, index).random() < 0.3:
+            # ... or a backlog of several thousand (more than any power of
+            # two somebody might think generous for a queue)
+            extra = make_rng('huge', ID, seed, index, 1).choice([3600, 4500])
+            burst += [['q', tag + i, 0] for i in range(extra)]
+            tag += extra
         threads[0] = threads[0][:1] + burst
         disc = {'by': 0, 'immediate': False}
         big = True
